@@ -13,8 +13,10 @@ RULE = ('1-3 transforms (Transform2D / Transform3D, constructed with explicit or
         'scale; vectors as tuple, list or Vec2/Vec3 with components in eighths from [-10, 10]; 2D '
         'rotations are multiples of 1/8 in [-1000, 1000] (int or float; 70 % outside [0, 360)), for '
         'which binary64 % is exact; after every operation all properties of all transforms are '
-        'read back; each callback records listener, event, argument and whether the argument '
-        'equals (value and type) what a read of the property returns right after the assignment; '
+        'read back; 25 % of the assignments repeat the current value (2D rotation: plus or minus '
+        'full turns); each callback records listener, event, argument and whether the argument '
+        'equals (value and type) what a read of the property returns both from inside the callback '
+        'and right after the assignment; '
         'non-trivial = at least three assignments with at least two callbacks')
 TRUSTED = [
     'Coq 8.16.1 kernel + vm_compute (evaluation of C20_verdict on the observed traces)',
@@ -25,6 +27,11 @@ TRUSTED = [
 ASSUMPTIONS = ['listeners only log (re-entrant listeners are the subject of C03/C04)',
                'for tiny negative non-dyadic rotations Python\'s float % rounds to 360.0: binary64 '
                'rounding is outside the exact model and not generated']
+
+# True: "the argument is what a read of the property returns" is also observed from inside the
+# callback (a setter that notifies before it stores is then a violation: the listener is told a
+# new value while the property still reads the old one); False: only right after the assignment.
+STRICT_ORDER = True
 
 EVENTS = ['on_position_change', 'on_rotation_change', 'on_scale_change']
 PROPS = ['position', 'rotation', 'scale']
@@ -39,9 +46,15 @@ def gen(rng, tier):
         masks = [[rng.random() < 0.6 for _ in range(3)] for _ in range(nl)]
         nt = rng.randint(1, 3)
         dims = {}
+        last = {}
         ops = []
 
-        def vec(d, p):
+        def vec(d, p, t=None):
+            if t is not None and (t, p) in last and rng.random() < 0.25:
+                v = list(last[(t, p)])            # the same value again / the same angle plus full turns
+                if not d and p == 1:
+                    v = [v[0] + 2880 * rng.randint(-2, 2)]
+                return v
             if not d and p == 1:
                 r = rng.random()
                 if r < 0.3:
@@ -59,6 +72,9 @@ def gen(rng, tier):
             d = rng.random() < 0.4
             dims[t] = d
             args = [vec(d, p) if rng.random() < 0.6 else None for p in range(3)]
+            for p in range(3):
+                if args[p] is not None:
+                    last[(t, p)] = args[p]
             ops.append(['new', t, d] + args)
             for _ in range(rng.randint(0, 3)):
                 ops.append(['listen', t, rng.randint(1, nl)])
@@ -74,7 +90,9 @@ def gen(rng, tier):
             else:
                 t = rng.randint(1, len(dims))
                 p = rng.randrange(3)
-                ops.append(['set', t, p, vec(dims[t], p), rng.choice(['tuple', 'vec', 'list'])])
+                v = vec(dims[t], p, t)
+                last[(t, p)] = v
+                ops.append(['set', t, p, v, rng.choice(['tuple', 'vec', 'list'])])
         cases.append(dict(masks=masks, ops=ops))
     return cases
 
@@ -101,7 +119,14 @@ def run(case):
         ns = {}
         for j in range(3):
             def f(self, *args, _j=j, **kwargs):
-                calls.append((self.lid, _j, args, kwargs))
+                inside = None
+                if current and len(args) == 1:
+                    try:
+                        seen = getattr(current[0], PROPS[_j])
+                        inside = type(seen) is type(args[0]) and seen == args[0]
+                    except Exception:
+                        inside = False
+                calls.append((self.lid, _j, args, kwargs, inside))
             ns[EVENTS[j]] = f
         k = type('L%d' % i, (object,), ns)
         k = desper.event_handler(*names)(k)
@@ -111,6 +136,7 @@ def run(case):
     ts = {}
     order = []
     out = []
+    current = []                      # the transform being assigned
 
     def mk(d, p, v, kind='tuple'):
         if not d and p == 1:
@@ -141,19 +167,25 @@ def run(case):
             else:
                 t, p = o[1], o[2]
                 d = isinstance(ts[t], desper.Transform3D)
-                setattr(ts[t], PROPS[p], mk(d, p, o[3], o[4]))
+                current.append(ts[t])
+                try:
+                    setattr(ts[t], PROPS[p], mk(d, p, o[3], o[4]))
+                finally:
+                    del current[:]
                 back = getattr(ts[t], PROPS[p])
-                for (lid, j, args, kwargs) in calls:
+                for (lid, j, args, kwargs, inside) in calls:
                     if len(args) == 1 and not kwargs:
                         a = args[0]
                         same = type(a) is type(back) and a == back
+                        if STRICT_ORDER:
+                            same = same and bool(inside)
                         rec.append([lid, j, comps(a), bool(same)])
                     else:
                         rec.append([lid, j, [BADNUM], False])
         except Exception as ex:                  # an error of the implementation is an observation
             err = type(ex).__name__
         if o[0] != 'set':
-            rec = [[lid, j, [BADNUM], False] for (lid, j, args, kwargs) in calls]
+            rec = [[lid, j, [BADNUM], False] for (lid, j, args, kwargs, inside) in calls]
         snap = []
         for t in order:
             try:
